@@ -406,8 +406,7 @@ def run(ctx):
         'uncaught exception (caught ones are printed with print_tb)',
         'SIGINT is sent to the main pid only'
     ]
-    if ctx.counters.get('runs_watchdog', 0):
-        ctx.inconclusive_because('a run hit the watchdog')
+    ctx.judge_watchdog('runs')
     if ctx.counters.get('usage_error_cases', 0) < 16:
         ctx.inconclusive_because('usage-error cases incomplete')
 
